@@ -108,3 +108,14 @@ package translate
 //@     invariant copied: forall k string :: k in visited ==> k in parameters && k in inputParameters && inputParameters[k] == parameters[k]
 //@     invariant only: forall k string :: k in inputParameters ==> k in visited
 //@     invariant own: inputParameters != nil && fresh(inputParameters)
+
+// aggregateCountColumn: the count column of the ranked CTE of the aggregate traversal count lowering is written to the
+// statement as it is. It is the user's alias only when every byte of the alias is a letter, an underscore or (not in
+// first position) a digit and the alias is not the CTE's own column root_id; otherwise the fixed internal name.
+//@ pure func plainByte(s string, i int) bool { s[i] == 95 || (97 <= s[i] && s[i] <= 122) || (65 <= s[i] && s[i] <= 90) || (48 <= s[i] && s[i] <= 57 && i > 0) }
+//@ func aggregateCountColumn(alias string) pgsql.Identifier
+//@   nomod
+//@   nosafety
+//@   ensures plainOrInternal: (result == alias && len(alias) > 0 && alias != "root_id" && (forall i int :: {:pattern alias[i]} 0 <= i && i < len(alias) ==> plainByte(alias, i))) || result == "terminal_count"
+//@   loop 0
+//@     invariant plainSoFar: 0 <= rangepos && rangepos <= len(alias) && (forall i int :: {:pattern alias[i]} 0 <= i && i < rangepos ==> plainByte(alias, i))
